@@ -80,10 +80,30 @@ Theorem C04_expr_trees_with_complement : forall S e, leaves_okc S e ->
 Proof. exact dexprc_spec. Qed.
 Print Assumptions C04_expr_trees_with_complement.
 
+(* to_partial(minify=False): never an error (the two state searches always have enough fuel); the result
+   is a valid DFA over the same alphabet with the same verdict on EVERY word *)
+Theorem C04_to_partial : forall m, valid_dfa m = true ->
+  exists R, to_partial_m m = Ok R /\ valid_dfa R = true /\ d_syms R = d_syms m /\
+            forall w, dfa_acc R w = dfa_acc m w.
+Proof. exact to_partial_spec. Qed.
+Print Assumptions C04_to_partial.
+
 Example C04_example :
   let A := mkdfa [0;1] [0;1] [(0,[(0,1)]);(1,[(1,0)])] 0 [1] true in
   let B := mkdfa [0] [0;1] [(0,[(0,0);(1,0)])] 0 [0] false in
   valid_dfa A = true /\ valid_dfa B = true /\ same_syms A B = true /\
   match binop_m Diff B A with Ok R => map (dfa_acc R) [[]; [0]; [0;1]; [1]] | Err _ => [] end
     = [true; false; true; true].
+Proof. vm_compute. repeat split. Qed.
+
+Example C04_example_unary :
+  let A := mkdfa [0;1;2] [0;1] [(0,[(0,1)]);(1,[(1,0);(0,2)]);(2,[(0,2)])] 0 [1] true in
+  valid_dfa A = true /\ d_partial A = true /\
+  length (d_states (to_complete_m A)) = 4 /\
+  map (dfa_acc (to_complete_m A)) [[]; [0]; [0;1]; [1]; [0;0]; [7]] = [false; true; false; false; false; false] /\
+  map (dfa_acc (complement_m A)) [[]; [0]; [0;1]; [1]; [0;0]; [7]] = [true; false; true; true; true; false] /\
+  match to_partial_m A with
+  | Ok R => (d_states R, map (dfa_acc R) [[]; [0]; [0;1]; [1]; [0;0]; [7]])
+  | Err _ => ([], [])
+  end = ([0;1], [false; true; false; false; false; false]).
 Proof. vm_compute. repeat split. Qed.
